@@ -554,6 +554,31 @@ func features(g *goMsg) string {
 	return f
 }
 
+// connFeatures names what decides the persistence of the connection: the version and the
+// Connection options close / keep-alive as the reference saw them.
+func connFeatures(g *goMsg) string {
+	var h http.Header
+	var minor int
+	var cl bool
+	if g.req != nil {
+		h, minor, cl = g.req.Header, g.req.ProtoMinor, g.req.Close
+	} else {
+		h, minor, cl = g.res.Header, g.res.ProtoMinor, g.res.Close
+	}
+	f := fmt.Sprintf("HTTP/1.%d", minor)
+	for _, v := range h["Connection"] {
+		for _, o := range strings.Split(v, ",") {
+			if strings.EqualFold(trimOWS(o), "keep-alive") && !strings.Contains(f, "+keep-alive") {
+				f += "+keep-alive"
+			}
+		}
+	}
+	if cl {
+		f += "+close"
+	}
+	return f
+}
+
 // ---------------------------------------------------------------------------------------------
 // evaluation of one stream
 
@@ -705,11 +730,17 @@ func attribute(viol []mismatch, gos []goMsg, stream []byte, client bool, every i
 				}
 			}
 		}
+		// what a predecessor can have left behind depends on what differs: for the close decision
+		// it is the version and the Connection options, for everything else the framing
+		feat := features
+		if strings.HasPrefix(v.sig, "close-decision") {
+			feat = connFeatures
+		}
 		var pf []string
 		for _, j := range preds {
-			pf = append(pf, features(&gos[j]))
+			pf = append(pf, feat(&gos[j]))
 		}
-		ps, ss := strings.Join(pf, ">"), features(&gos[i])
+		ps, ss := strings.Join(pf, ">"), feat(&gos[i])
 		switch {
 		case v.verdict != "":
 			v.sig = fmt.Sprintf("pipeline-successor-rejected pred=%s succ=%s verdict=%s", ps, ss, v.verdict)
@@ -956,7 +987,7 @@ func run(tier string, sh *vkit.Shard, p *vkit.Part) {
 			m.Desc = fmt.Sprintf("req#%d %s %s %s hdrset=%d conn=%q body=%s framingFirst=%v", lin, method, target, ver, ix[2], []string(cf), b.name, ff)
 			e.stream(m, false, "")
 			p.Count("grammar_requests", 1)
-			if sampled < 3 && b.b.Kind == httpgen.BodyChunked && len(b.b.Trailers) > 0 && len(cf) > 0 {
+			if sampled < 1 && b.b.Kind == httpgen.BodyChunked && len(b.b.Trailers) > 0 && len(cf) > 0 {
 				sampled++
 				p.Sample(map[string]interface{}{"stream": string(m.B), "desc": m.Desc})
 			}
@@ -980,6 +1011,10 @@ func run(tier string, sh *vkit.Shard, p *vkit.Part) {
 			p.Count("grammar_requests.cross", 1)
 			if len(b.decl) > 0 && b.b.Kind != httpgen.BodyChunked {
 				p.Count("grammar_requests.trailer_declared_on_non_chunked", 1)
+				if sampled < 2 && b.b.Kind == httpgen.BodyCL {
+					sampled++
+					p.Sample(map[string]interface{}{"stream": string(m.B), "desc": m.Desc})
+				}
 			}
 		})
 	})
@@ -1161,6 +1196,11 @@ func run(tier string, sh *vkit.Shard, p *vkit.Part) {
 						switch {
 						case !a.chunked && a.decl > 0 && b.chunked:
 							p.Count("pipeline_pairs.trailer_declared_on_non_chunked_then_chunked", 1)
+							if sampled < 3 {
+								sampled++
+								pl := httpgen.Pipeline(a.m, b.m)
+								p.Sample(map[string]interface{}{"stream": string(pl.B), "desc": pl.Desc})
+							}
 						case a.chunked && a.decl > 0 && b.chunked && b.decl != a.decl:
 							p.Count("pipeline_pairs.chunked_with_trailers_then_chunked_with_other_or_no_trailers", 1)
 						case a.chunked && !b.chunked:
